@@ -106,6 +106,8 @@ type Run struct {
 	Binder      *BinderActor
 	brFailed    map[string]int
 	brAttempts  map[string]int
+	draDouble   bool // the scheduler's claim cache held one device under two claims at some point of this run
+	draInconsistent bool // claim cache and allocated-device set of the scheduler disagreed at some point of this run
 }
 
 type Oracle interface {
@@ -415,6 +417,7 @@ func (r *Run) stubBinder() {
 		}
 		pod.Status.Conditions = append(pod.Status.Conditions, corev1.PodCondition{Type: corev1.PodScheduled, Status: corev1.ConditionTrue})
 		r.API.UpdatePod(pod)
+		r.applyClaimAllocations(br, pod)
 		br.Status.Phase = bindv1alpha2.BindRequestPhaseSucceeded
 		must(r.API.Tracker.Update(BRGVR, br, br.Namespace))
 		r.Probe("stub_bound")
@@ -462,6 +465,9 @@ func (r *Run) kubelet(only string) {
 		}
 	}
 	r.syncReservations()
+	if r.S.World.HasDRA() {
+		r.claimController()
+	}
 }
 
 func (r *Run) syncReservations() {
